@@ -216,3 +216,25 @@ void h_search(void)
   __CPROVER_assert(impl.pendingConnects.present && impl.pendingConnects.wval == &wop, "J1 late onConnect after the caller timed out: the pendingConnects entry must survive until onClose (else the global onClose fires for a session never handed out)");
 }
 #endif
+
+/* ---- ITransport::connectSyncCancellable (C04: "a timed-out or cancelled attempt leaves no open connection behind"; "success only with the identifier of a
+ * session that completed its handshake and that the transport has not itself closed"; "otherwise a definite error"). Partial correctness: that the loop
+ * ends (by the deadline, "in time") depends on the clock and is NOT decided. ---- */
+void h_cancellable(void)
+{
+  ITransport tr; iora_token tok; iora_host h; int64_t timeout = nondet_i64();
+  tok.cancelled = nondet_bool(); bool cancelled0 = tok.cancelled;
+  __CPROVER_assume(timeout >= -((int64_t)1 << 40) && timeout <= ((int64_t)1 << 40));
+  G_clock = nondet_i64(); __CPROVER_assume(G_clock >= 0 && G_clock <= ((int64_t)1 << 40));
+  G_attempts = 0; G_open = 0; G_cancel_seen = 0; G_last_err = 0; IORA_TRUE = 1;
+  iora_result r = ITransport_connectSyncCancellable(&tr, h, 0, &tok, 0, timeout);
+  IORA_CANARY("h_cancellable: returns");
+  __CPROVER_assert(!r.ok || (G_open == 1 && r.value == G_last_sid && G_attempts >= 1), "K1 ok(sid) is the ok result of the LAST connectSync attempt: exactly that one session is open, every earlier attempt was closed");
+  __CPROVER_assert(r.ok || G_open == 0, "K2 every non-ok return (Cancelled, Timeout, any other error) leaves NO open connection behind: each id obtained by a timed-out attempt had its close issued by that attempt");
+  __CPROVER_assert(!(!r.ok && r.code == TransportError_Cancelled) || G_cancel_seen || (G_attempts >= 1 && G_last_err == TransportError_Cancelled), "K3 Cancelled only if the token was observed cancelled (or it is the reason the engine itself gave for a failed attempt)");
+  __CPROVER_assert(!cancelled0 || (!r.ok && r.code == TransportError_Cancelled && G_attempts == 0), "K4 a token cancelled before the call: Cancelled, no connection attempt at all");
+  __CPROVER_assert(r.ok || r.code == TransportError_Cancelled || r.code == TransportError_Timeout || G_attempts >= 1, "K5 any other error is the definite error of a connectSync attempt, returned immediately");
+  if (r.ok) { IORA_CANARY("h_cancellable: ok"); }
+  if (!r.ok && r.code == TransportError_Cancelled && G_attempts >= 2) { IORA_CANARY("h_cancellable: cancelled after several attempts"); }
+  if (!r.ok && r.code == TransportError_Timeout && G_attempts >= 2) { IORA_CANARY("h_cancellable: timed out after several attempts"); }
+}
